@@ -15,7 +15,8 @@ from common import write_ndjson
 L = tf.keras.layers
 S = {"qA": "quantized_bits(4,0,1)", "bA": "quantized_bits(6,2,1)", "qB": "ternary()", "aB": "quantized_relu(5,1)",
      "aS": "quantized_relu(3,1)", "aDr": "quantized_relu(6,2)", "aDl": "quantized_relu(6,2,negative_slope=0.125)",
-     "qN": "quantized_bits(8,3,1)", "qR": "quantized_bits(5,1,1)", "qS": "quantized_bits(7,2,1)", "qP": "quantized_bits(9,0,1)"}
+     "qN": "quantized_bits(8,3,1)", "qR": "quantized_bits(5,1,1)", "qS": "quantized_bits(7,2,1)", "qP": "quantized_bits(9,0,1)",
+     "aR": "quantized_sigmoid(5)"}
 ABITS = 4
 RNN = ("SimpleRNN", "LSTM", "GRU", "Bidirectional")
 SEP = ("SeparableConv1D", "SeparableConv2D")
@@ -44,7 +45,7 @@ def entries(kind):
   if kind in ("Conv1D", "Conv2D", "Dense", "DepthwiseConv2D"):
     return ["empty", "A", "B"]
   if kind in RNN:
-    return ["empty", "A", "B", "R"]
+    return ["empty", "A", "B", "R", "RA"]
   if kind in SEP:
     return ["empty", "SP"]
   if kind in POOL:
@@ -58,6 +59,8 @@ def entry(e, kind):
   kq = "depthwise_quantizer" if kind == "DepthwiseConv2D" else "kernel_quantizer"
   return {"empty": {}, "A": {kq: S["qA"], "bias_quantizer": S["bA"]}, "B": {kq: S["qB"], "activation_quantizer": S["aB"]},
           "R": {"kernel_quantizer": S["qA"], "recurrent_quantizer": S["qR"], "bias_quantizer": S["bA"], "state_quantizer": S["qS"]},
+          "RA": {"kernel_quantizer": S["qA"], "recurrent_quantizer": S["qR"], "bias_quantizer": S["bA"], "state_quantizer": S["qS"],
+                 "recurrent_activation_quantizer": S["aR"]},
           "SP": {"depthwise_quantizer": S["qA"], "pointwise_quantizer": S["qB"], "bias_quantizer": S["bA"]},
           "P": {"average_quantizer": S["qP"]}, "PB": {"average_quantizer": S["qP"], "activation_quantizer": S["aB"]},
           "S": S["aS"], "D": {"relu": S["aDr"], "leakyrelu": S["aDl"]},
@@ -174,7 +177,9 @@ def project(qm, model):
     cls = lay.__class__.__name__
     if cls == "UserScale":
       cls = "User"
-    r = {"cls": cls, "kq": "none", "bq": "none", "rq": "none", "sq": "none", "pq": "none", "act": "keep:" + l["act"]}
+    r = {"cls": cls, "kq": "none", "bq": "none", "rq": "none", "sq": "none", "pq": "none", "act": "keep:" + l["act"], "ra": "none"}
+    ra_of = lambda cell: "aR" if str(getattr(cell, "recurrent_activation", "")) == str(Q.get_quantizer(S["aR"])) else \
+        ("none" if hasattr(getattr(cell, "recurrent_activation", None), "__name__") or not hasattr(cell, "recurrent_activation") else "other")
     if cls in ("QDense", "QConv2D", "QConv1D"):
       r["kq"] = sym(cls, "kernel_quantizer", lay.kernel_quantizer_internal, ("qA", "qB"))
       r["bq"] = sym(cls, "bias_quantizer", lay.bias_quantizer_internal, ("bA",))
@@ -193,14 +198,16 @@ def project(qm, model):
       for inner in (lay.forward_layer, lay.backward_layer):
         ic = inner.__class__.__name__
         if not ic.startswith("Q"):
-          halves.append(("none", "none", "none", "none", "keep:tanh"))
+          halves.append(("none", "none", "none", "none", "keep:tanh", "none"))
           continue
         halves.append((sym(ic, "kernel_quantizer", inner.kernel_quantizer_internal, ("qA", "qB")),
                        sym(ic, "recurrent_quantizer", inner.recurrent_quantizer_internal, ("qR",)),
                        sym(ic, "bias_quantizer", inner.bias_quantizer_internal, ("bA",)),
-                       sym(ic, "state_quantizer", inner.state_quantizer_internal, ("qS",)), act_sym(inner.cell.activation, l["act"])))
+                       sym(ic, "state_quantizer", inner.state_quantizer_internal, ("qS",)), act_sym(inner.cell.activation, l["act"]),
+                       ra_of(inner.cell)))
       if halves[0] == halves[1]:
-        r["kq"], r["rq"], r["bq"], r["sq"], r["act"] = halves[0]
+        r["kq"], r["rq"], r["bq"], r["sq"], r["act"] = halves[0][:5]
+        r["ra"] = halves[0][5] if len(halves[0]) > 5 else "none"
       else:
         r["kq"] = "other:directions_differ " + str(halves)[:60]
     elif cls in ("QSimpleRNN", "QLSTM", "QGRU"):
@@ -209,6 +216,7 @@ def project(qm, model):
       r["bq"] = sym(cls, "bias_quantizer", lay.bias_quantizer_internal, ("bA",))
       r["sq"] = sym(cls, "state_quantizer", lay.state_quantizer_internal, ("qS",))
       r["act"] = act_sym(lay.cell.activation, l["act"])
+      r["ra"] = ra_of(lay.cell)
     elif cls in ("QAveragePooling2D", "QGlobalAveragePooling2D"):
       r["kq"] = sym(cls, "average_quantizer", lay.average_quantizer_internal, ("qP",))
       r["act"] = act_sym(lay.activation, "linear")
